@@ -35,7 +35,10 @@ class C19(Prop):
             'a submitted round, per-sample group/sub-group loops) and jobs created inside groups; observed per submit: route (create-fast / update-fast / create+bunches+commit), '
             'announced n_job_groups / n_jobs, the uids and byte totals of every posted bunch; oracle: the posted job groups / jobs are exactly '
             'those created since the previous successful submit, in order, announced counts equal, limits kept, nothing sent when nothing '
-            'is pending. distinct by full case')
+            'is pending. In 40% of the scripts one request of a submit (the k-th POST / the commit PATCH) is answered with an error (413 / '
+            'connection reset); the script continues on the same Batch (more specs, other limits, submit again): the failed attempt may '
+            'only have posted pending specs under its own limits, and the retry must post exactly the pending specs under ITS limits. '
+            'distinct by full case')
     trusted = ['orjson shim (json.dumps(..., separators=(",",":")).encode()): the algorithm only reads the byte length']
     assumptions = ['spec byte sizes are those of the shimmed orjson.dumps']
 
@@ -160,7 +163,22 @@ class C19(Prop):
             if rng.random() < 0.04:
                 max_bytes = 250                    # below the size of a job spec: the assertion of _create_bunches fires
             rounds.append({'maxBytes': max_bytes, 'maxN': rng.choice([1, 2, 3, 5, 1024, 1024]), 'ops': ops})
+        if rng.random() < 0.4:
+            # a request of one submit is answered with an error (413 / connection reset); the script goes on with the same Batch:
+            # more specs, OTHER limits, submit again
+            i = rng.randrange(len(rounds))
+            rounds[i]['fail'] = rng.choice([1, 1, 2, 2, 3, 4, 6])
+            if rng.random() < 0.3 and i + 1 < len(rounds):
+                rounds[i + 1]['fail'] = rng.choice([1, 2, 3])
+            retry = {'maxBytes': rng.choice([10 ** 6, 2000, 900, 600]), 'maxN': rng.choice([1, 2, 3, 5, 1024]),
+                     'ops': [[rng.choice('gjj'), rng.choice([0, 0, 7, 40])] for _ in range(rng.choice([0, 0, 1, 2]))]}
+            rounds.insert(i + 1, retry)
+            if rounds[i]['maxN'] <= retry['maxN'] and rng.random() < 0.7:
+                rounds[i]['maxN'], retry['maxN'] = rng.choice([5, 1024]), rng.choice([1, 2, 3])     # the retry asks for smaller bunches
         return {'k': 'submits', 'rounds': rounds}
+
+    class InjectedHttpError(Exception):
+        """what the transport raises for an error status (stands in for aiohttp.ClientResponseError)"""
 
     class _Resp:
         def __init__(self, payload):
@@ -178,10 +196,22 @@ class C19(Prop):
             self.n_jobs = 0
             self.n_groups = 0
             self.pending = [0, 0]
+            self.fail_at = None         # the k-th request (1-based) of the current submit is answered with an error
+            self.n_requests = 0
+            self.injected = False
+
+        def _maybe_fail(self, path):
+            self.n_requests += 1
+            if self.fail_at is not None and self.n_requests == self.fail_at:
+                self.injected = True
+                if self.fail_at % 2:
+                    raise C19.InjectedHttpError(f'413 Request Entity Too Large: {path}')
+                raise ConnectionResetError(f'connection reset by peer: {path}')
 
         async def _post(self, path, data=None, json=None):  # noqa: A002 (signature of BatchClient._post)
             import json as _json
             body = json if json is not None else _json.loads(bytes(data._value))
+            self._maybe_fail(path)
             self.posts.append((path, body))
             R = C19._Resp
             if path.endswith('/create-fast') or path.endswith('/update-fast'):
@@ -204,6 +234,7 @@ class C19(Prop):
             raise AssertionError(f'unexpected request {path}')
 
         async def _patch(self, path):
+            self._maybe_fail(path)
             r = {'start_job_group_id': self.n_groups + 1, 'start_job_id': self.n_jobs + 1}
             self.n_groups += self.pending[0]
             self.n_jobs += self.pending[1]
@@ -246,12 +277,18 @@ class C19(Prop):
                         sizes[uid] = self._nbytes(batch._job_specs[n0])
                     created[kind].append(uid)
                 n_posts = len(rec.posts)
+                rec.fail_at, rec.n_requests, rec.injected = rnd.get('fail'), 0, False
+                raised = failed = False
                 try:
                     await batch.submit(max_bunch_bytesize=rnd['maxBytes'], max_bunch_size=rnd['maxN'], disable_progress_bar=True)
-                    raised = False
                 except AssertionError:
                     raised = True
-                out.append({'created': created, 'raised': raised, 'posts': rec.posts[n_posts:]})
+                except (C19.InjectedHttpError, ConnectionResetError):
+                    if not rec.injected:
+                        raise
+                    failed = True
+                out.append({'created': created, 'raised': raised, 'failed': failed, 'is_created': bool(batch.is_created),
+                            'posts': rec.posts[n_posts:]})
 
         import logging
         logging.disable(logging.CRITICAL)           # "Tried to submit an update with 0 jobs…" is expected here
@@ -269,6 +306,8 @@ class C19(Prop):
     def _render(self, rnd):
         if rnd['raised']:
             return 'raised'
+        if rnd.get('failed'):
+            return f"failed c={int(rnd['is_created'])}"
         posts = rnd['posts']
         if not posts:
             return 'quiet'
@@ -314,14 +353,15 @@ class C19(Prop):
                 for op in rnd['ops']:
                     uid += 1
                     toks.append(f'{op[0]}{sizes[uid]}')
-                lines.append(' '.join(['round', str(rnd['maxBytes']), str(rnd['maxN'])] + toks))
+                fail = [f"f{rnd['fail']}"] if rnd.get('fail') else []
+                lines.append(' '.join(['round', str(rnd['maxBytes']), str(rnd['maxN'])] + fail + toks))
             return lines
         return [' '.join(map(str, [c['maxBytes'], c['maxN'], len(c['groups'])] + c['groups'] + c['jobs']))]
 
     POST = re.compile(r'(F|G|J)\[([^\]]*)\]@(\d+)')
 
     def _oracle_submits(self, c, out):
-        _played, sizes = self._play(c)
+        played, sizes = self._play(c)
         pend = {'g': [], 'j': []}
         uid = 0
         created_before = False
@@ -334,6 +374,38 @@ class C19(Prop):
             if line == 'raised':
                 if not too_big:
                     return f'{what} raised although every pending spec is below the byte limit'
+                continue
+            if line.startswith('failed'):
+                # the attempt was cut short by a request error: whatever it did put on the wire must already respect THIS call's
+                # limits and consist of pending specs in order; everything stays pending for the retry
+                if not rnd.get('fail'):
+                    return f'{what} failed without an injected request error'
+                if too_big:
+                    return f'{what} started posting although spec {too_big[0]} has {sizes[too_big[0]]} bytes'
+                sent_g, sent_j = [], []
+                for path, body in played[k - 1]['posts']:
+                    if path.endswith('/create-fast') or path.endswith('/update-fast'):
+                        parts = [('g', body['job_groups']), ('j', body['bunch'])]
+                        whole = body['job_groups'] + body['bunch']
+                    elif path.endswith('/job-groups/create'):
+                        parts, whole = [('g', body)], body
+                    elif path.endswith('/jobs/create'):
+                        parts, whole = [('j', body)], body
+                    else:
+                        continue
+                    if len(whole) > rnd['maxN'] or sum(self._nbytes(sp) for sp in whole) >= rnd['maxBytes']:
+                        return f'{what} (failed attempt) posted a bunch of {len(whole)} specs / {sum(self._nbytes(sp) for sp in whole)} bytes'
+                    for typ, specs in parts:
+                        (sent_g if typ == 'g' else sent_j).extend(self._uids(specs))
+                if sent_g != pend['g'][:len(sent_g)]:
+                    return f'{what} (failed attempt) posted job groups {sent_g}, not a prefix of the pending {pend["g"]}'
+                it = iter(pend['j'])
+                if not all(u in it for u in sent_j):
+                    return f'{what} (failed attempt) posted jobs {sent_j}, not pending jobs {pend["j"]} in order'
+                now_created = line.endswith('c=1')
+                if created_before and not now_created:
+                    return f'{what} (failed attempt) left a created batch uncreated'
+                created_before = now_created
                 continue
             if too_big:
                 return f'{what} went through although spec {too_big[0]} has {sizes[too_big[0]]} bytes'
@@ -435,10 +507,12 @@ class C19(Prop):
             lines = out[1:]
             tags = [f'submits={len(lines)}']
             for ln in lines:
-                tags.append('submit:' + ('raised' if ln == 'raised' else 'quiet' if ln == 'quiet' else 'fast' if ' F[' in ln else
+                tags.append('submit:' + ('raised' if ln == 'raised' else 'failed' if ln.startswith('failed') else 'quiet' if ln == 'quiet' else 'fast' if ' F[' in ln else
                                          'open' if ln.endswith(' open') else 'bunches'))
             if any('g' == op[0] for r in c['rounds'][:-1] for op in r['ops']) and len(c['rounds']) > 1:
                 tags.append('groups-before-a-later-submit')
+            if any(a.startswith('failed') and not b.startswith('failed') and b not in ('raised', 'quiet') for a, b in zip(lines, lines[1:])):
+                tags.append('retry-after-failed-submit')
             if any(op[0] == 'g' and len(op) > 2 for r in c['rounds'] for op in r['ops']):
                 tags.append('nested-job-groups')
             return (json.dumps(c, sort_keys=True) if len(lines) > 1 or any(' G[' in ln or ' J[' in ln for ln in lines) else None, tags)
@@ -491,6 +565,12 @@ class C19(Prop):
                             break
                     if changed:
                         break
+            for i, r in enumerate(cur['rounds']):
+                if 'fail' in r:
+                    cand = json.loads(json.dumps(cur))
+                    del cand['rounds'][i]['fail']
+                    if fails(cand):
+                        cur = cand
             for r in cur['rounds']:
                 for op in r['ops']:
                     if op[1]:
